@@ -429,7 +429,28 @@ def rule_pure(run):
     pure_rule(run, [fi for name, fi in sorted(cls.methods.items()) if name.startswith('write')])
 
 
+def rule_surfall(run):
+    run.rule('SURFALL', 'write() leaves the surface section out when the geometry reports default_surface, so that report is the conjunction '
+             'of the per-column flags: one column with an explicit surface is enough to need the section', floor=1)
+    fi = run.prog.func('mulgrids.mulgrid.get_default_surface')
+    key = 'mulgrid.default_surface :: all columns default'
+    calls = [c for c in ast.walk(fi.node) if isinstance(c, ast.Call) and isinstance(c.func, ast.Name) and c.func.id in ('all', 'any')
+             and any(isinstance(x, ast.Attribute) and x.attr == 'default_surface' for x in ast.walk(c))]
+    if len(calls) != 1:
+        run.unknown(key, 'reduction over the column flags not found', where=fi.where()); return
+    c = calls[0]
+    neg_in = any(isinstance(u, ast.UnaryOp) and isinstance(u.op, ast.Not) for a in c.args for u in ast.walk(a))
+    neg_out = any(isinstance(u, ast.UnaryOp) and isinstance(u.op, ast.Not) and u.operand is c for u in ast.walk(fi.node))
+    universal = (c.func.id == 'all' and not neg_in and not neg_out) or (c.func.id == 'any' and neg_in and neg_out)
+    if universal: run.ok(key, norm(c)[:80], where=fi.where(c))
+    elif c.func.id == 'any' and not neg_in and not neg_out:
+        run.violated(key, 'the geometry reports a default surface as soon as *one* column has it (`%s`): write() then omits the whole surface '
+                     'section and the explicit surfaces of the other columns are lost on re-reading' % norm(c)[:80], where=fi.where(c))
+    else: run.unknown(key, 'reduction `%s` not recognised' % norm(c)[:80], where=fi.where(c))
+
+
 def check(run):
+    run.guarded('SURFALL', rule_surfall)
     run.guarded('PURE', rule_pure)
     run.guarded('DISP', rule_disp)
     run.guarded('RECSEQ', rule_recseq)
